@@ -12,6 +12,8 @@ VERIF_HAVE_LOCK=1 VERIF_SEED=${VERIF_SEED:-1} timeout 1800 /venv/bin/python harn
 rc=$?
 git -C /repo checkout -- .
 git -C /repo clean -fdq -e 'test.dict.*' >/dev/null 2>&1
+# the translator's output must describe the restored tree again
+(cd /verif/harness && PYTHONPATH=/verif/harness /venv/bin/python -c "from translate import frontend_ir as f; f.generate(which=('server','client'))" >/dev/null 2>&1)
 echo "== $P $(basename $D) exit=$rc"
 grep -E "VIOLATION|KNOWN-FINDING|^C[0-9]+ |broken:" /tmp/mut_run_$$.log | cut -c1-260 | head -8
 rm -f /tmp/mut_run_$$.log
